@@ -330,3 +330,14 @@ func keyString(k any) string {
 	}
 	return sprint(k)
 }
+
+// SortedStrings owns the order of a []string that the callee assembles in map order (the media type
+// lists of go-openapi/analysis): a sorted copy while an order owner is installed, the slice itself otherwise.
+func SortedStrings(s []string) []string {
+	if orderChooser == nil || len(s) < 2 {
+		return s
+	}
+	out := append([]string(nil), s...)
+	sort.Strings(out)
+	return out
+}
